@@ -44,6 +44,8 @@ class SimLoop(asyncio.BaseEventLoop):
         self.exc_contexts = []  # contexts passed to call_exception_handler
         self.gc_contexts = 0  # garbage-collection-timed reports (never used by an oracle)
         self.timers_fired = 0
+        self.foreign_depth = 0  # > 0 while code runs that, in production, runs in the communicator's thread
+        self.thread_violations = []  # non-thread-safe scheduling calls made from such code
         self.set_exception_handler(SimLoop._record_exception)
 
     # -- seams -----------------------------------------------------------------------------
@@ -62,6 +64,45 @@ class SimLoop(asyncio.BaseEventLoop):
             self.gc_contexts += 1
             return
         self.exc_contexts.append(context)
+
+    # -- "foreign thread" emulation -----------------------------------------------------------
+    # There are no threads in the simulation, but some code does run in another thread in production: the subscriber
+    # callbacks of a process registered directly with a (threaded) communicator.  While such code runs the loop is in
+    # "foreign" mode and does what asyncio's debug mode does: scheduling through the non-thread-safe entry points
+    # (call_soon / call_later / call_at, hence create_task and ensure_future) is recorded as a violation - from another
+    # thread only call_soon_threadsafe (run_coroutine_threadsafe) reliably wakes the loop up.
+    class _Foreign:
+        def __init__(self, loop):
+            self.loop = loop
+
+        def __enter__(self):
+            self.loop.foreign_depth += 1
+
+        def __exit__(self, *exc):
+            self.loop.foreign_depth -= 1
+
+    def foreign_thread(self):
+        return SimLoop._Foreign(self)
+
+    def _note_unsafe(self, what, callback):
+        if self.foreign_depth > 0:
+            name = getattr(callback, '__qualname__', None) or repr(callback)
+            self.thread_violations.append(f'{what}({name})')
+
+    def call_soon(self, callback, *args, context=None):
+        self._note_unsafe('call_soon', callback)
+        return super().call_soon(callback, *args, context=context)
+
+    def call_at(self, when, callback, *args, context=None):
+        self._note_unsafe('call_at', callback)
+        return super().call_at(when, callback, *args, context=context)
+
+    def call_soon_threadsafe(self, callback, *args, context=None):
+        depth, self.foreign_depth = self.foreign_depth, 0
+        try:
+            return super().call_soon_threadsafe(callback, *args, context=context)
+        finally:
+            self.foreign_depth = depth
 
     # -- stepping --------------------------------------------------------------------------
     def runnable(self):
